@@ -1,27 +1,111 @@
 /-
-Specification side of C28 / C29: what the properties demand of a hostmap state and of one transition,
-stated over the observable maps only (independent of how the model computes them).  Everything here is a
-decidable check returning the *class* of the first violated clause: it is the driver's oracle on the
-implementation's dumps.  The Prop-level counterpart proved about the model for all histories is `Inv`
-(`Lemmas/HostMapInv.lean`) with the theorems of `Props/C28.lean` / `Props/C29.lean`; the clauses correspond one to one
-(`invCheck` ↔ `Core none` + `Cap`, `deleteCheck` ↔ `delete_erases` / `delete_exact` / `delete_final_iff`,
-`stepCheck` ↔ `no_resurrection` / `release_only_by_owner` / `remote_index_only_by_owner`).
+Specification side of C28 / C29 as an executable oracle: what the properties demand of a hostmap state and of one
+transition, as decidable checks that return the *class* of the first violated clause.  The driver applies them to the
+implementation's dumps.
+
+Every check is a conjunction of named Boolean clauses, one per clause of the Prop-level invariant `Inv`
+(`Lemmas/HostMapInv.lean`) resp. of the step relation `Step` (`Lemmas/HostMapOracle.lean`), and
+`invCheck s = none ↔ Inv s`, `stepCheck pre post fresh = none ↔ Step pre post fresh` are proved there
+(`Props/C28.lean`: `invCheck_iff_Inv`, `stepCheck_iff_Step`): what the run-time oracle checks is exactly what the theorems
+are about.  Maps are always read through `get` (never by walking the association list), so a shadowed duplicate key
+cannot make the oracle and the Prop differ.
 -/
 import Nebula.Model.HostMap
 
 namespace Nebula.Spec.HostMap
 open Nebula.HostMap
 
+/-- `∀ k v, m.get k = some v → p k v`, decidably -/
+def allEntries {β : Type} (m : FMap β) (p : Nat → β → Bool) : Bool :=
+  m.keys.all fun k => match m.get k with | some v => p k v | none => true
+
+/-- the values of a map (through `get`) -/
+def valsG {β : Type} (m : FMap β) : List β := m.keys.filterMap m.get
+
 /-- a tunnel is live when `Indexes[localIndexId]` is this very tunnel -/
 def live (s : State) (h : Nat) : Bool := s.indexes.get (s.obj h).lidx == some h
 
-def vals {β : Type} (m : FMap β) : List β := m.map (·.2)
+/-- every address that has a list -/
+def addrsOf (s : State) : List Nat := s.hosts.keys ++ s.more.keys
 
 /-- every tunnel referenced from any map of the main hostmap -/
 def mainRefs (s : State) : List Nat :=
-  vals s.hosts ++ (vals s.more).flatten ++ vals s.indexes ++ vals s.rindexes ++ vals s.relays
+  (addrsOf s).flatMap (hostList s) ++ valsG s.indexes ++ valsG s.rindexes ++ valsG s.relays
 
-def pendingRefs (s : State) : List Nat := vals s.vpnIps ++ vals s.pidx
+def pendingRefs (s : State) : List Nat := valsG s.vpnIps ++ valsG s.pidx
+
+/-! ### state clauses (one per clause of `Inv`) -/
+
+def cRep (s : State) : Bool := allEntries s.more fun a l => decide (2 ≤ l.length) && (s.hosts.get a == l.head?)
+def cListOk (s : State) : Bool :=
+  (addrsOf s).all fun a => (hostList s a).all fun h => live s h && (s.obj h).addrs.contains a
+def cNodup (s : State) : Bool := (addrsOf s).all fun a => decide (hostList s a).Nodup
+def cCap (s : State) : Bool := (addrsOf s).all fun a => decide ((hostList s a).length ≤ maxHostInfos)
+def cIdx (s : State) : Bool := allEntries s.indexes fun i h => ((s.obj h).lidx == i) && (i != 0)
+def cReach (s : State) : Bool :=
+  allEntries s.indexes fun _ h => (s.obj h).addrs.all fun a => (hostList s a).contains h
+def cRidx (s : State) : Bool := allEntries s.rindexes fun r h => live s h && ((s.obj h).ridx == r)
+def cRel (s : State) : Bool :=
+  allEntries s.relays fun i h => live s h && ((s.rstate h).byIdx.get i).isSome && (i != 0)
+def cRelOwn (s : State) : Bool :=
+  allEntries s.indexes fun _ h => !live s h || allEntries (s.rstate h).byIdx fun i _ => s.relays.get i == some h
+def cAgreeA (s : State) : Bool :=
+  allEntries s.rs fun _ r => allEntries r.byAddr fun a rel => (rel.peer == a) && (r.byIdx.get rel.lidx == some rel)
+def cAgreeI (s : State) : Bool :=
+  allEntries s.rs fun _ r => allEntries r.byIdx fun i rel => (rel.lidx == i) && (r.byAddr.get rel.peer).isSome
+def cRsPend (s : State) : Bool :=
+  allEntries s.rs fun h r => allEntries r.byIdx fun _ _ =>
+    decide (h < s.next) && (allEntries s.pidx fun _ x => x != h) && (allEntries s.vpnIps fun _ x => x != h)
+def cPidx (s : State) : Bool :=
+  allEntries s.pidx fun i h => ((s.obj h).lidx == i) && (i != 0) && (s.indexes.get i).isNone && (s.obj h).ready
+def cVpn (s : State) : Bool := allEntries s.vpnIps fun a h => ((s.obj h).addrs == [a]) && !live s h
+def cFresh (s : State) : Bool := s.objs.keys.all fun h => decide (h < s.next)
+def cVpnReady (s : State) : Bool :=
+  allEntries s.vpnIps fun _ h => !(s.obj h).ready || (s.pidx.get (s.obj h).lidx == some h)
+
+/-- the clauses with the class reported when one fails -/
+def invClauses (s : State) : List (Bool × String) :=
+  [(cRep s, "hosts-morehosts-out-of-sync"), (cListOk s, "list-dead-or-foreign-tunnel"), (cNodup s, "list-duplicate"),
+   (cCap s, "list-over-cap"), (cIdx s, "index-zero-or-owner-mismatch"), (cReach s, "indexed-tunnel-unreachable"),
+   (cRidx s, "remote-index-dead-or-mismatch"), (cRel s, "relay-index-dead-or-unlisted-tunnel"),
+   (cRelOwn s, "relay-index-not-registered"), (cAgreeA s, "relay-maps-disagree"), (cAgreeI s, "relay-maps-disagree-idx"),
+   (cRsPend s, "relay-on-pending-tunnel"), (cPidx s, "pending-index-zero-mismatch-or-overlap"),
+   (cVpn s, "pending-tunnel-malformed-or-live"), (cFresh s, "object-id-not-fresh"),
+   (cVpnReady s, "pending-tunnel-lost-its-index")]
+
+def firstFailing (l : List (Bool × String)) : Option String :=
+  match l.find? (fun p => !p.1) with | some p => some p.2 | none => none
+
+/-- C28 / C29 state invariant; `none` = holds -/
+def invCheck (s : State) : Option String := firstFailing (invClauses s)
+
+/-! ### transition clauses (one per clause of `Step`) -/
+
+/-- no tunnel enters the main hostmap except the one being added (⇒ a removed tunnel is never brought back) -/
+def sNoResurrect (pre post : State) (fresh : List Nat) : Bool :=
+  (mainRefs post).all fun h => (mainRefs pre).contains h || fresh.contains h
+/-- an index is only released by removing the tunnel that owns it -/
+def sIdx (pre post : State) : Bool :=
+  allEntries pre.indexes fun i h => (post.indexes.get i == some h) || !(mainRefs post).contains h
+def sRel (pre post : State) : Bool :=
+  allEntries pre.relays fun i h => (post.relays.get i == some h) || !(mainRefs post).contains h
+def sPidx (pre post : State) : Bool :=
+  allEntries pre.pidx fun i h => (post.pidx.get i == some h) || (post.indexes.get i == some h) ||
+    !(mainRefs post ++ pendingRefs post).contains h
+/-- a remote index entry is only removed by the tunnel it points to (a new tunnel may shadow it) -/
+def sRidx (pre post : State) (fresh : List Nat) : Bool :=
+  allEntries pre.rindexes fun r h => (post.rindexes.get r == some h) || !(mainRefs post).contains h ||
+    (match post.rindexes.get r with | some h' => fresh.contains h' | none => false)
+
+def stepClauses (pre post : State) (fresh : List Nat) : List (Bool × String) :=
+  [(sNoResurrect pre post fresh, "resurrected-tunnel"), (sIdx pre post, "index-released-by-non-owner"),
+   (sRel pre post, "relay-index-released-by-non-owner"), (sPidx pre post, "pending-index-released-by-non-owner"),
+   (sRidx pre post fresh, "remote-index-removed-by-non-owner")]
+
+/-- transition clauses that hold for every operation; `fresh` = tunnels the operation may bring into the main hostmap -/
+def stepCheck (pre post : State) (fresh : List Nat) : Option String := firstFailing (stepClauses pre post fresh)
+
+/-! ### operation-specific checks -/
 
 def firstBad {α : Type} (l : List α) (f : α → Option String) : Option String := l.findSome? f
 
@@ -30,70 +114,22 @@ def orElse' (a : Option String) (b : Unit → Option String) : Option String :=
 
 def chk (b : Bool) (cls : String) : Option String := if b then none else some cls
 
-/-- C28 state invariant (clauses a–d) and the C29 state clauses (non-zero, index ↔ owner agreement, pending and
-main index namespaces disjoint); `none` = holds. -/
-def invCheck (s : State) : Option String :=
-  orElse' (firstBad s.hosts fun (a, h) =>
-    orElse' (chk (live s h) "hosts-dead-tunnel") fun _ => chk ((s.obj h).addrs.contains a) "hosts-foreign-address") fun _ =>
-  orElse' (firstBad s.more fun (a, l) =>
-    orElse' (chk (2 ≤ l.length) "more-short-list") fun _ =>
-    orElse' (chk (l.length ≤ maxHostInfos) "more-over-cap") fun _ =>
-    orElse' (chk (decide l.Nodup) "more-duplicate") fun _ =>
-    orElse' (chk (l.head? == s.hosts.get a) "more-head-not-primary") fun _ =>
-    firstBad l fun h =>
-      orElse' (chk (live s h) "more-dead-tunnel") fun _ => chk ((s.obj h).addrs.contains a) "more-foreign-address") fun _ =>
-  orElse' (firstBad s.indexes fun (i, h) =>
-    orElse' (chk (i != 0) "index-zero") fun _ =>
-    orElse' (chk ((s.obj h).lidx == i) "index-owner-mismatch") fun _ =>
-    firstBad (s.obj h).addrs fun a => chk ((hostList s a).contains h) "indexed-tunnel-unreachable") fun _ =>
-  orElse' (firstBad s.rindexes fun (r, h) =>
-    orElse' (chk (live s h) "remote-index-dead-tunnel") fun _ => chk ((s.obj h).ridx == r) "remote-index-owner-mismatch") fun _ =>
-  orElse' (firstBad s.relays fun (i, h) =>
-    orElse' (chk (i != 0) "relay-index-zero") fun _ =>
-    orElse' (chk (live s h) "relay-dead-tunnel") fun _ => chk ((s.obj h).relays.contains i) "relay-index-owner-mismatch") fun _ =>
-  firstBad s.pidx fun (i, h) =>
-    orElse' (chk (i != 0) "pending-index-zero") fun _ =>
-    orElse' (chk ((s.obj h).lidx == i) "pending-index-owner-mismatch") fun _ =>
-    chk ((s.indexes.get i).isNone) "pending-main-index-overlap"
-
-/-- Transition clauses that hold for every operation.  `fresh` = tunnels the operation is allowed to bring into
-the main hostmap (the tunnel being completed). -/
-def stepCheck (pre post : State) (fresh : List Nat) : Option String :=
-  let mr := mainRefs post
-  let ar := mr ++ pendingRefs post
-  -- no tunnel enters the main hostmap except the one being added (⇒ a removed tunnel is never brought back)
-  orElse' (firstBad mr fun h => chk ((mainRefs pre).contains h || fresh.contains h) "resurrected-tunnel") fun _ =>
-  -- an index is only released by removing the tunnel that owns it
-  orElse' (firstBad pre.indexes fun (i, h) =>
-    chk (post.indexes.get i == some h || !mr.contains h) "index-released-by-non-owner") fun _ =>
-  orElse' (firstBad pre.relays fun (i, h) =>
-    chk (post.relays.get i == some h || !mr.contains h) "relay-index-released-by-non-owner") fun _ =>
-  orElse' (firstBad pre.pidx fun (i, h) =>
-    chk (post.pidx.get i == some h || post.indexes.get i == some h || !ar.contains h) "pending-index-released-by-non-owner") fun _ =>
-  -- a remote index entry is only removed by the tunnel it points to (a new tunnel may shadow it)
-  firstBad pre.rindexes fun (r, h) =>
-    chk (post.rindexes.get r == some h || !mr.contains h ||
-         (match post.rindexes.get r with | some h' => fresh.contains h' | none => false))
-      "remote-index-removed-by-non-owner"
-
 /-- What `DeleteHostInfo(h)` must do to the per-address lists. -/
 def eraseList (pre : State) (h a : Nat) : List Nat := (hostList pre a).filter (· != h)
 
 /-- "no tunnel to the peer remains" -/
 def finalSpec (pre : State) (h : Nat) : Bool := (pre.obj h).addrs.all fun a => (eraseList pre h a).isEmpty
 
-def allAddrs (s : State) : List Nat := s.hosts.keys ++ s.more.keys
-
 /-- `DeleteHostInfo(h)`: every reference to `h` is gone, the answer is `finalSpec`, and nothing belonging to another
-tunnel moved. -/
+tunnel moved (`delete_erases`, `delete_final_iff`, `delete_exact` in `Props/C28.lean`). -/
 def deleteCheck (pre post : State) (h : Nat) (final : Bool) : Option String :=
   orElse' (chk (!(mainRefs post).contains h) "delete-leaves-reference") fun _ =>
   orElse' (chk (final == finalSpec pre h) "delete-final-wrong") fun _ =>
-  orElse' (firstBad (allAddrs pre ++ allAddrs post) fun a =>
+  orElse' (firstBad (addrsOf pre ++ addrsOf post) fun a =>
     chk (hostList post a == eraseList pre h a) "delete-disturbs-address-list") fun _ =>
-  orElse' (firstBad post.indexes fun (i, x) => chk (pre.indexes.get i == some x) "delete-adds-index") fun _ =>
-  orElse' (firstBad post.relays fun (i, x) => chk (pre.relays.get i == some x) "delete-adds-relay-index") fun _ =>
-  firstBad post.rindexes fun (i, x) => chk (pre.rindexes.get i == some x) "delete-adds-remote-index"
+  orElse' (chk (allEntries post.indexes fun i x => pre.indexes.get i == some x) "delete-adds-index") fun _ =>
+  orElse' (chk (allEntries post.relays fun i x => pre.relays.get i == some x) "delete-adds-relay-index") fun _ =>
+  chk (allEntries post.rindexes fun i x => pre.rindexes.get i == some x) "delete-adds-remote-index"
 
 /-- an index handed out for a pending tunnel: non-zero and not held in the pending ∪ main namespace -/
 def handedOutCheck (pre : State) (idx : Nat) : Option String :=
